@@ -22,6 +22,7 @@ RULE = ('one evaluation = one seeded history dominated by operations that read o
         'SHA-256 of (configuration, program)')
 RULE += ' ' + "One seed in 101 lets a fresh interpreter (another operating-system process) store or touch the items that the check's process must then expire."
 RULE += ' ' + 'One seed in 101 runs expire() / cull() over 101-350 expired items while every clock reading is 4 ms - 30 s after the last.'
+RULE += ' ' + 'One bulk block in twelve has 1001-1200 expired items under an SQLite limited to 999 parameters per statement.'
 ASSUMPTIONS = ['clock frozen within one operation; per-process skew is constant during a run']
 PROBES = ('cull_expired', 'page_boundary_crossed', 'expired_seen', 'other_os_process', 'slow_clock')
 TECHNIQUE = 'deterministic simulation with a virtual clock (frozen ticks, jumps, per-process skew) + model-based checking of every lookup against the liveness rule'
@@ -53,6 +54,9 @@ def gen_case(seed, tier):
     if rng.random() < 0.3:
         # many items sharing one expiry instant (more than one 100-row page), the clock moved past it, then a bulk removal
         n = rng.choice((101, 130, 205, 250))
+        big_backlog = rng.random() < 0.08
+        if big_backlog:
+            n = rng.choice((1001, 1200))      # more expired items than an SQLite with the old 999-parameter limit binds at once
         ttl = rng.choice((1, 5, 0, -1))
         base = 500000
         block = [{'op': 'set', 'k': base + j, 'v': j, 'expire': ttl} for j in range(n)]
@@ -73,8 +77,10 @@ def gen_case(seed, tier):
         for op in prog:
             if op['op'] not in ('advance', 'reopen'):
                 op['proc'] = rng.randrange(nproc)
-    return {'seed': seed, 'cfg': {'settings': settings, 'profile': 'expiry', 'skews': skews,
-                                  'epoch': rng.choice((1600000000.0, 1600000000.25, 5.0))}, 'prog': prog}
+    cfg = {'settings': settings, 'profile': 'expiry', 'skews': skews, 'epoch': rng.choice((1600000000.0, 1600000000.25, 5.0))}
+    if any(op.get('k') == 500000 + 1000 for op in prog):
+        cfg['var_limit'] = 999
+    return {'seed': seed, 'cfg': cfg, 'prog': prog}
 
 
 def run_xproc(case):
